@@ -32,7 +32,8 @@ pub fn idle_available(w: &World, origin: &str) -> Vec<usize> {
             // only connections that are clearly not expired count as available
             (Some(t), Some(at)) if t > 0 && !c.h2 => (now.duration_since(at).as_millis() as u64) + EXPIRY_MARGIN_MS < t,
             (Some(t), None) if t > 0 && !c.h2 => false,
-            (Some(t), _) if t > 0 && c.h2 => t >= 5_000,
+            // HTTP/2: the pool's entry was stamped at or after `refreshed_instant`
+            (Some(t), _) if t > 0 && c.h2 => t >= 5_000 || c.refreshed_instant.map(|at| (now.duration_since(at).as_millis() as u64) + EXPIRY_MARGIN_MS < t).unwrap_or(false),
             _ => true,
         })
         .map(|c| c.id)
@@ -111,6 +112,14 @@ pub fn on_dial_created(w: &mut World, did: usize) {
         if still {
             let av = w.reqs[rid].avail_at_issue.clone();
             w.violate("C04", "R1:dialed-although-idle-connection-available", format!("r{rid} started dial d{did} although connections {av:?} were idle-available when it was issued"));
+        } else {
+            // the pool itself threw an available connection away while it looked at the idle list for this request:
+            // open (the peer never closed it), certainly unexpired, and its last handle dropped in the issue step
+            let issued = w.reqs[rid].issued_step;
+            let discarded: Vec<usize> = w.reqs[rid].avail_at_issue.iter().copied().filter(|c| w.conns[*c].closed_step.is_none() && !w.conns[*c].upgraded && w.conns[*c].dropped_step == Some(issued)).collect();
+            if !discarded.is_empty() && discarded.len() == w.reqs[rid].avail_at_issue.len() {
+                w.violate("C04", "R1:pool-discarded-healthy-idle-connection-and-dialed", format!("r{rid} started dial d{did}; connections {discarded:?} were open, unexpired and idle-available when it was issued and were dropped by the pool in that very step"));
+            }
         }
     }
     if w.reqs[rid].h2 {
@@ -136,7 +145,12 @@ pub fn on_dial_created(w: &mut World, did: usize) {
         }
         // R3
         let pooled = w.cfg.max_idle_per_host > 0;
-        let existing: Vec<usize> = w.conns.iter().filter(|c| pooled && c.origin == origin && c.h2 && c.alive() && c.open() && c.in_pool).map(|c| c.id).collect();
+        let now = Instant::now();
+        let fresh = |c: &ConnRec| match w.cfg.idle_timeout_ms {
+            Some(t) if t > 0 && t < 5_000 => c.refreshed_instant.map(|at| (now.duration_since(at).as_millis() as u64) + EXPIRY_MARGIN_MS < t).unwrap_or(false),
+            _ => true,
+        };
+        let existing: Vec<usize> = w.conns.iter().filter(|c| pooled && c.origin == origin && c.h2 && c.alive() && c.open() && c.in_pool && fresh(c)).map(|c| c.id).collect();
         if let Some(c) = existing.first().copied() {
             let window = reserved_h2(w, c);
             w.violate(
@@ -316,6 +330,28 @@ pub fn on_handoff(w: &mut World, rid: usize, cid: usize, is_reused: bool, uri: &
             } else {
                 w.count("c05_expiry_grey_zone");
             }
+        }
+    }
+
+    // HTTP/2: every operation that can stamp the pool's entry for this connection happened at or before the
+    // last operation preceding this request's issue; if the connection was registered before that and the gap up
+    // to the issue exceeds the idle timeout, the entry was expired when the request looked at the idle list
+    if let (Some(t), true) = (w.cfg.idle_timeout_ms, c_h2) {
+        let issued_at = w.reqs[rid].issued_instant;
+        let (reg, prev) = (w.conns[cid].registered_instant, w.reqs[rid].prev_activity);
+        if let (Some(reg), Some(prev)) = (reg, prev) {
+            if t > 0 && w.auto.is_none() && reg <= prev && issued_at > prev {
+                let idle_ms = issued_at.duration_since(prev).as_millis() as u64;
+                if idle_ms > t + EXPIRY_MARGIN_MS {
+                    w.violate("C05", "expired-h2-connection-handed-out", format!("HTTP/2 connection c{cid} was unused for at least {idle_ms}ms > idle_timeout {t}ms when r{rid} was issued, and was given to it"));
+                } else if idle_ms + EXPIRY_MARGIN_MS < t {
+                    w.count("c05_unexpired_h2_reuse");
+                }
+            }
+        }
+        if w.conns[cid].in_pool {
+            let at = w.conns[cid].refreshed_instant.map(|x| x.max(issued_at)).unwrap_or(issued_at);
+            w.conns[cid].refreshed_instant = Some(at);
         }
     }
 
